@@ -228,8 +228,18 @@ func runC17Case(r *ev.Run, c c17Case) int {
 	cs, ret, retAt := callStart, returned, returnedAt
 	mu.Unlock()
 	farm.Shutdown()
+	stuck := false // the call does not even return once the connection has been closed under it: it is not waiting for the network
 	if hung {
-		<-done
+		select {
+		case <-done:
+		case <-time.After(10 * time.Second):
+			stuck = true
+		}
+	}
+	if stuck {
+		r.Count("stalls_executed", 1)
+		viol(fmt.Sprintf("blocked-indefinitely:%s:%s", cfg.Call, cfg.TLS), fmt.Sprintf("%s (timeout %v) did not return within %v after the server went silent, and not even within 10 s after the connection had been closed under it: it is blocked on something that no deadline bounds", cfg.Call, timeout, watchdog+timeout), nil)
+		return steps
 	}
 	if setupFailed {
 		// the stall hit the set-up phase (dial before Send/Reset): covered by the dial configurations
@@ -331,7 +341,7 @@ func c17Configs(thorough bool) []c17Config {
 
 func runC17(r *ev.Run, rep *ev.ReplayDoc) ev.Summary {
 	sum := ev.Summary{
-		Rule: "for DialWithContext, DialAndSend, Send and Reset x {no TLS, STARTTLS} x {no auth, PLAIN, LOGIN, AUTH after STARTTLS, HELO fallback} x {context.Background, a caller context whose own deadline is an hour away} x {fresh Client, Client that has just completed a healthy DialAndSend}: the reference server goes silent (holding the connection) at every command position of the dialogue in turn - greeting, EHLO, HELO, STARTTLS reply, inside the TLS handshake, post-TLS EHLO, every AUTH step, NOOP, MAIL, each RCPT, DATA, inside the content, end-of-data reply, RSET, QUIT. The tracking conn records the deadline armed at the entry of every Read/Write. After a stalled Send / Reset has returned its error, the other one of the two is called on the same Client and has to return, too. non-trivial = the stall point was reached; distinct by (configuration, stall point)",
+		Rule: "for DialWithContext, DialAndSend, Send and Reset x {no TLS, STARTTLS} x {no auth, PLAIN, LOGIN, AUTH after STARTTLS, HELO fallback} x {context.Background, a caller context whose own deadline is an hour away} x {fresh Client, Client that has just completed a healthy DialAndSend}: the reference server goes silent (holding the connection; not reading any more, or still reading but never replying) at every command position of the dialogue in turn - greeting, EHLO, HELO, STARTTLS reply, inside the TLS handshake, post-TLS EHLO, every AUTH step, NOOP, MAIL, each RCPT, DATA, inside the content, end-of-data reply, RSET, QUIT. The tracking conn records the deadline armed at the entry of every Read/Write. After a stalled Send / Reset has returned its error, the other one of the two is called on the same Client and has to return, too. non-trivial = the stall point was reached; distinct by (configuration, stall point)",
 		Assumptions: []string{
 			"generous bound: a call counts as blocked only if it has not returned max(20 x timeout, 5 s) + timeout after it started",
 			"violation = still blocked AND the pending network operation was entered without a deadline (the logical cause); blocked with a deadline armed = inconclusive",
@@ -367,6 +377,10 @@ func runC17(r *ev.Run, rep *ev.ReplayDoc) ev.Summary {
 		var cs []c17Case
 		for pos := 0; pos < steps; pos++ {
 			cs = append(cs, c17Case{Cfg: cfgs[i], Script: []scriptEntry{{Index: pos, Kind: "stall"}}})
+			if cfgs[i].Call == "send" || cfgs[i].Call == "reset" || r.Thorough() {
+				// the server never answers again but keeps reading: the client's writes succeed, only its reads run into the deadline
+				cs = append(cs, c17Case{Cfg: cfgs[i], Script: []scriptEntry{{Index: pos, Kind: "mute"}}})
+			}
 		}
 		if cfgs[i].Call == "send" || cfgs[i].Call == "dialandsend" {
 			cs = append(cs, c17Case{Cfg: cfgs[i], StallData: 300}, c17Case{Cfg: cfgs[i], StallData: 5000})
